@@ -721,6 +721,9 @@ def gen_edits(L, wide=False):
     base_variants.append(("gap", frame + meas + [["ts", m2, 2, 4], ["ks", 2, -7, "minor"], ["clef", 1, 1, "F", 4, None]]))
     base_variants.append(("two", frame + meas + [["ts", 0, 2, 4], ["ts", m2, 3, 4], ["ks", 0, 3, "major"], ["ks", 3, 0, None],
                                                  ["clef", 0, 1, "G", 2, 0], ["clef", 3, 1, "C", 3, 1]]))
+    # a clef that is the only element of the top staff: removing it lowers the number of staves (a count the part may cache)
+    base_variants.append(("topstaff", frame + meas + [["clef", 0, 1, "G", 2, 0], ["clef", 0, 2, "F", 4, 0]]))
+    base_variants.append(("topstaff3", frame + meas + [["clef", 0, 1, "G", 2, 0], ["clef", 1, 3, "C", 3, 0]]))
     positions = list(range(0, L + 1))
     for name, base in base_variants:
         nbase = len(base)
